@@ -89,6 +89,10 @@ def refine(trajs):
             for k, t in enumerate(trajs)]
 
 
+def tolists(trajs):
+    return [[int(v) for v in t] for t in trajs]
+
+
 def alt_layouts(M):
     """the same 2-d float matrix in other memory layouts: Fortran order, a transposed view of the
     transposed copy, and a strided window of a larger buffer"""
